@@ -4,7 +4,7 @@
 From Coq Require Import List NArith ZArith Arith Lia Bool.
 From Coq Require Import Init.Byte.
 From OKE Require Import Bytes Suite Generated Hkdf Voprf Messages Envelope TripleDH Opaque Api.
-From OKE Require Import Laws Codecs Honest Substituted Accept Bad KeySeparation WrongCredential AcceptedLogin World WorldCrash CrashInv FreshRanges Toy.
+From OKE Require Import Laws Codecs Honest Substituted Accept Bad KeySeparation WrongCredential AcceptedLogin World WorldCrash CrashInv FreshRanges HonestWorld Toy.
 Import ListNotations.
 
 Definition tape0 : bytes := map (fun i => n2b (N.of_nat (i * 37 + 11))) (seq 0 300).
@@ -177,20 +177,23 @@ Example toy_three_attempts : length (w_srv w1) = 3 /\
   end.
 Proof. vm_compute. split; reflexivity. Qed.
 
+Definition d_cli : CliSession (E := Z) (Sc := Z) (Pk := Z) (Sk := Z) := {| cs_pw := []; cs_state := d_clog |}.
+Definition d_srv : SrvSession (E := Z) (Pk := Z) :=
+  {| sv_file := None; sv_cred := []; sv_ctx := None; sv_ids := ids0; sv_rq := d_rq; sv_state := d_slog; sv_resp := d_resp |}.
+Definition srv0 := nth 0 (w_srv w1) d_srv.
+Definition srv2 := nth 2 (w_srv w1) d_srv.
+Lemma toy_fr_0 : nth_error (w_srv (run TOY (init setup0 (snd r3)) hist1)) 0 = Some srv0. Proof. vm_compute. reflexivity. Qed.
+Lemma toy_fr_2 : nth_error (w_srv (run TOY (init setup0 (snd r3)) hist1)) 2 = Some srv2. Proof. vm_compute. reflexivity. Qed.
+
 Example toy_attempts_theorem_instance :
-  exists sa sc, nth_error (w_srv w1) 0 = Some sa /\ nth_error (w_srv w1) 2 = Some sc /\
   exists tj fj ej mid fk ek restk,
-    tj = fj ++ cr_masking_nonce (sv_resp sa) ++ ej ++ k2_nonce (cr_ke2 (sv_resp sa)) ++ mid ++
-         fk ++ cr_masking_nonce (sv_resp sc) ++ ek ++ k2_nonce (cr_ke2 (sv_resp sc)) ++ restk /\
+    tj = fj ++ cr_masking_nonce (sv_resp srv0) ++ ej ++ k2_nonce (cr_ke2 (sv_resp srv0)) ++ mid ++
+         fk ++ cr_masking_nonce (sv_resp srv2) ++ ek ++ k2_nonce (cr_ke2 (sv_resp srv2)) ++ restk /\
     suffix tj (snd r3).
 Proof.
-  destruct (w_srv w1) as [|sa [|sb [|sc [|? ?]]]] eqn:Hw; try (exfalso; apply (f_equal (@length _)) in Hw; vm_compute in Hw; discriminate).
-  exists sa, sc. split; [reflexivity|]. split; [reflexivity|].
-  destruct (attempts_draw_from_disjoint_ranges TOY toy_sampler_prefix setup0 (snd r3) hist1 0 2 sa sc ltac:(lia))
+  destruct (attempts_draw_from_disjoint_ranges TOY toy_sampler_prefix setup0 (snd r3) hist1 0 2 srv0 srv2 ltac:(lia) toy_fr_0 toy_fr_2)
     as (tj & fj & nj & ej & mj & mid & fk & nk & ek & mk & restk & Ht & -> & -> & -> & -> & _ & _ & _ & _ & _ & _ & _ & _ & _ & _ & Hs).
-  - change (run TOY (init setup0 (snd r3)) hist1) with w1. now rewrite Hw.
-  - change (run TOY (init setup0 (snd r3)) hist1) with w1. now rewrite Hw.
-  - exists tj, fj, ej, mid, fk, ek, restk. split; assumption.
+  exists tj, fj, ej, mid, fk, ek, restk. split; assumption.
 Qed.
 
 (* C15 on the toy suite: registered under the default stretching function (the identity), login with an instance that
@@ -210,4 +213,34 @@ Proof.
   destruct (accepted_login_used_the_registrations_secrets TOY toy_hash_laws toy_group_laws Z.eq_dec toy_action_free
               _ _ _ _ _ _ _ _ _ _ _ _ _ _ _ _ _ _ _ _ _ _ _ _ _ _ _ HP HP H0 H1 H2 H3 H4 H5 Hacc)
     as [(_ & _ & y & z & Ha & Hb & _)|HB]; [left; eauto | right; exact HB].
+Qed.
+
+(* C01 over histories on the toy suite: in the world of the three attempts above, the honest delivery (client session 0,
+   server session 1 - the one started on the real record) completes; from the theorem, every law discharged.
+   (Premises are closed computations, each proved by vm_compute on its own.) *)
+Definition cli0 := nth 0 (w_cli w1) d_cli.
+Definition srv1 := nth 1 (w_srv w1) d_srv.
+Lemma toy_hw_c : nth_error (w_cli (run TOY (init setup0 (snd r3)) hist1)) 0 = Some cli0. Proof. vm_compute. reflexivity. Qed.
+Lemma toy_hw_s : nth_error (w_srv (run TOY (init setup0 (snd r3)) hist1)) 1 = Some srv1. Proof. vm_compute. reflexivity. Qed.
+Lemma toy_hw_pw : cs_pw cli0 = pw0. Proof. vm_compute. reflexivity. Qed.
+Lemma toy_hw_file : sv_file srv1 = Some (server_registration_finish upload0). Proof. vm_compute. reflexivity. Qed.
+Lemma toy_hw_cred : sv_cred srv1 = cred0. Proof. vm_compute. reflexivity. Qed.
+Lemma toy_hw_ids : sv_ids srv1 = ids0. Proof. vm_compute. reflexivity. Qed.
+Lemma toy_hw_rq : sv_rq srv1 = cl_request (cs_state cli0). Proof. vm_compute. reflexivity. Qed.
+Lemma toy_hw_nr : o_eqb (oprf TOY) (cq_blinded (sv_rq srv1)) (cr_eval (sv_resp srv1)) = false. Proof. vm_compute. reflexivity. Qed.
+Lemma toy_hw_good : forall pw', In (OClientStart pw') hist1 -> good_pw TOY pw'.
+Proof.
+  intros pw' Hin. destruct toy_premises_of_C01 as (HP & _).
+  cbn [hist1 In] in Hin. destruct Hin as [Hin|[Hin|[Hin|[Hin|[]]]]]; try discriminate Hin. injection Hin as <-. exact HP.
+Qed.
+
+Example toy_C01_history_instance :
+  exists fin key dbg,
+    client_login_finish TOY (cs_state cli0) pw0 (sv_resp srv1) (sv_ctx srv1) ids0 None = Ok (fin, key, snd (fst (fst r3)), snd (fst r3), dbg) /\
+    server_login_finish TOY (sv_state srv1) fin = Ok key.
+Proof.
+  destruct toy_premises_of_C01 as (_ & H0 & H1 & H2 & H3 & _).
+  exact (honest_delivery_completes TOY toy_hash_laws toy_group_laws tape0 setup0 (snd r0) (snd r3) hist1
+           _ _ _ _ _ _ _ _ _ _ _ _ _ 0 cli0 1 srv1 H0 toy_hw_good H1 H2 H3
+           toy_hw_c toy_hw_pw toy_hw_s toy_hw_file toy_hw_cred toy_hw_ids toy_hw_rq toy_hw_nr).
 Qed.
